@@ -59,11 +59,16 @@ func Spec() *run.Spec {
 			"offset_decades":             6,
 			"insertion_orders":           5000,
 			"oracle_selftest_passed":     1,
+			"plain_calls_right_after_a_cutting_constrained_call": 300,
+			"large_sets":                       6,
+			"large_required_triangles_present": 100,
 		},
 		Phases: []run.Phase{
 			{Name: "oracle-selftest", Cases: func(string) int { return 1 }, Run: selfTest, Batch: 1},
 			{Name: "sets", Cases: tiered(2000, 40000), Run: setCase, Batch: 20, CPUBudgetS: 60},
 			{Name: "orders", Cases: tiered(200, 3000), Run: orderCase, Batch: 10, CPUBudgetS: 60},
+			{Name: "sequences", Cases: tiered(400, 6000), Run: sequenceCase, Batch: 20, CPUBudgetS: 60},
+			{Name: "large", Cases: tiered(6, 60), Run: largeCase, Batch: 1, CPUBudgetS: 600},
 		},
 	}
 }
@@ -132,9 +137,14 @@ func xy(P []pt, max int) [][2]float64 {
 
 // drawCertified draws the case's point set, redrawing (with a larger jitter) until it is in general position.
 func drawCertified(c *run.Ctx, res *run.Result, forceN int) ([]pt, workload, bool) {
+	return drawCertifiedAt(c, res, forceN, 0, c.Case)
+}
+
+// drawCertifiedAt: salt separates several sets of one case; classIdx selects class and extent decade.
+func drawCertifiedAt(c *run.Ctx, res *run.Result, forceN int, salt uint64, classIdx int) ([]pt, workload, bool) {
 	why := ""
 	for attempt := 0; attempt < 6; attempt++ {
-		P, w := genWorkload(c.SubRng(uint64(1000+attempt)), c.Case, attempt, forceN)
+		P, w := genWorkload(c.SubRng(1000+100*salt+uint64(attempt)), classIdx, attempt, forceN)
 		ok, reason := certify(P)
 		if ok {
 			return P, w, true
